@@ -222,6 +222,14 @@ def corpus() -> list[dict]:
     # a neighbour blocked for ever must not hold the others back
     cs.append({"api": "high", "naddr": 3, "early": [], "never": [1], "progs": {"1": [[{"s": 1, "do": "y"}]]},
                "script": [[["a", 1, "b1"], ["a", 0, "01"], ["a", 2, "c1"]], [["a", 1, "b2"], ["a", 0, "02"]], [], [["a", 2, "c2"], ["a", 0, "03"]]]})
+    # a backlog drained by polling (`yield 0`): every queued datagram is delivered, then TimeoutError
+    Z = {"s": 0, "do": "yt", "t": 0}
+    for api in ("low", "high"):
+        cs.append({"api": api, "naddr": 1, "early": [], "progs": {"0": [[Y, Z, Z, Z, Z, {"s": 0, "do": "r"}]]},
+                   "script": [[["a", 0, "01"], ["a", 0, "02"], ["a", 0, "03"]], [], [], [], []]})
+        cs.append({"api": api, "naddr": 2, "early": [[0, "aa"], [0, "ab"], [1, "ba"]],
+                   "progs": {"0": [[Z, Z, Z, {"s": 0, "do": "r"}]], "1": [[Z, Y, {"s": 0, "do": "r"}]]},
+                   "script": [[["a", 1, "0b"]], [], [], []]})
     return cs
 
 
@@ -233,7 +241,8 @@ def _rand_prog(rng, high: bool) -> list[dict]:
         if r < 0.55:
             prog.append({"s": s, "do": "y"})
         elif r < 0.75:
-            prog.append({"s": s, "do": "yt", "t": rng.choice([1, 2, 3])})
+            # (a zero timeout is a poll: a datagram that is already queued must be delivered, not dropped)
+            prog.append({"s": s, "do": "yt", "t": rng.choice([0, 0, 1, 2, 3])})
         elif r < 0.92 or not high:
             prog.append({"s": s, "do": "r"})
             break
